@@ -147,7 +147,10 @@ impl Driver {
         };
         let was_ingesting = observe().ingesting.is_some();
         let stable_before = observe().stable_height;
+        let t0 = std::time::Instant::now();
         let applied = self.w.apply(ev).map_err(|v| self.relabel_c09(v))?;
+        *self.w.stats.wall_us.entry(format!("apply:{}", ev.kind())).or_insert(0) += t0.elapsed().as_micros() as u64;
+        let t0 = std::time::Instant::now();
         if !applied {
             return Ok(false);
         }
@@ -190,6 +193,15 @@ impl Driver {
         if self.w.is_active("C20") {
             self.w.check_bookkeeping().map_err(|v| fix(self.relabel_c09(v)))?;
         }
+        if self.w.is_active("C10") && matches!(ev, Event::Heartbeat { .. } | Event::Deliver { .. } | Event::Quiesce) {
+            // C10: a rejected element (and everything after it in the reply, announced headers
+            // included) has no effect: the internal view must be exactly the model's.
+            self.w.check_bookkeeping().map_err(|mut v| {
+                v.kind = format!("state-after-reply:{}", v.kind);
+                v.property = "C10".into();
+                fix(v)
+            })?;
+        }
         if self.w.is_active("C15") {
             self.w.note_fee_candidate();
             if let Event::SetConfig(c) | Event::Upgrade { arg: Some(c) } = ev {
@@ -201,7 +213,10 @@ impl Driver {
         if self.w.is_active("C08") {
             self.c08_checks(ev, was_ingesting, stable_before).map_err(fix)?;
         }
+        *self.w.stats.wall_us.entry("checks".into()).or_insert(0) += t0.elapsed().as_micros() as u64;
+        let t0 = std::time::Instant::now();
         self.abstract_state();
+        *self.w.stats.wall_us.entry("abstract".into()).or_insert(0) += t0.elapsed().as_micros() as u64;
         Ok(true)
     }
 
@@ -480,10 +495,13 @@ fn run_with(cfg: RunConfig, gen: Option<(Swarm, u64)>, trace: Vec<Event>) -> Run
     };
     let mut violation = None;
     match gen {
-        Some((sw, seed)) => {
+        Some((mut sw, seed)) => {
             let mut rng = Rng::new(seed);
             for _ in 0..sw.max_events {
-                let ev = gen::next_event(&sw, &driver.w, &mut rng);
+                if sw.script.as_ref().map(|s| s.finished).unwrap_or(false) {
+                    break;
+                }
+                let ev = gen::next_event(&mut sw, &driver.w, &mut rng);
                 match driver.step(&ev) {
                     Ok(_) => {}
                     Err(v) => {
